@@ -35,6 +35,8 @@ CONTENTS = [
     # a source that starts with a byte order mark (U+FEFF is ordinary text to the library; every front-end must keep it)
     ("bom", "\ufeff= Title\n\nsome   text here\n"),
     ("bom-erroneous", "\ufeff#f(\n"),
+    # an erroneous source whose last line is long and unterminated (printed unchanged: one write of more than a stdout buffer)
+    ("erroneous-long-tail", "= Draft\n\n#let body = [\n" + "word " * 400),
 ]
 BINARY = b"\xff\xfe\x00bad"
 
@@ -47,11 +49,12 @@ class Scenario:
         self.files = {}      # relpath -> ('T', text) | ('B', bytes) | ('D',) | ('L', target relpath): a symbolic link
         self.steps = []      # invocations
         self.cwd = ""        # sub-directory of the scratch root the CLI runs in
+        self.readonly = []   # files whose mode is 0444 (the checks run as root, for whom that changes nothing)
 
     def describe(self):
         return {"cwd": self.cwd,
                 "files": {p: (v[0], v[1] if v[0] in ("T", "L") else (v[1].hex() if v[0] == "B" else "")) for p, v in sorted(self.files.items())},
-                "steps": self.steps}
+                "readonly": self.readonly, "steps": self.steps}
 
 
 def gen_scenario(rng, shapes):
@@ -85,6 +88,13 @@ def gen_scenario(rng, shapes):
             p = (d + "/" if d else "") + rng.pick(["ln.typ", "lk.typ"])
             if p not in sc.files:
                 sc.files[p] = ("L", rng.pick(targets))
+    if rng.chance(1, 4):
+        texts = sorted(p for p, v in sc.files.items() if v[0] == "T")
+        for _ in range(1 + rng.below(2)):
+            if texts:
+                q = rng.pick(texts)
+                if q not in sc.readonly:
+                    sc.readonly.append(q)
     if rng.chance(1, 6) and ".hid" in sc.files:
         sc.cwd = ".hid"
     nsteps = 1 if rng.chance(2, 3) else 2 + rng.below(2)
@@ -271,6 +281,9 @@ def materialise(root, sc):
         if v[0] == "L":
             full = os.path.join(root, p)
             os.symlink(os.path.relpath(os.path.join(root, v[1]), os.path.dirname(full)), full)
+    if os.geteuid() == 0:
+        for p in getattr(sc, "readonly", []):
+            os.chmod(os.path.join(root, p), 0o444)
 
 
 def reset_mtimes(root):
@@ -508,6 +521,7 @@ def run_k8(ck, binary, rng, n, shapes, own_prop, replay=None):
         for p, v in replay["scenario"]["files"].items():
             sc.files[p] = ("D",) if v[0] == "D" else (("T", v[1]) if v[0] == "T" else ("B", bytes.fromhex(v[1])))
         sc.steps = replay["scenario"]["steps"]
+        sc.readonly = list(replay["scenario"].get("readonly", []))
         scenarios.append(sc)
     scenarios += corpus_scenarios(shapes)
     for _ in range(n):
@@ -578,6 +592,10 @@ def corpus_scenarios(shapes):
     base = {"a.typ": T("#let a  =  1"), "b.typ": T("#let b = 1\n"), "n.typ": T("#let a = 1"), "r.typ": T("#let a = 1\r\n"),
             "e.typ": T("#let a = ("), "bad.typ": ("B", BINARY), "x": ("D",), "x/c.typ": T("#let c  =  2"),
             ".hid": ("D",), ".hid/h.typ": T("#let h  =  3"), "x/.hid2": ("D",), "x/.hid2/i.typ": T("#let i  =  4")}
+    ro = mk({"docs": ("D",), "docs/main.typ": T("#let a = 1\n"), "vendor": ("D",), "vendor/lib.typ": T("#let  b  =  1")},
+            [inv("all-check" if any(s.endswith("check") for s in shapes) else "all")])
+    ro.readonly = ["vendor/lib.typ"]
+    res.append(ro)
     if any(s.endswith("check") for s in shapes):
         for f in ["a.typ", "b.typ", "n.typ", "r.typ", "e.typ", "bad.typ", "missing.typ"]:
             res.append(mk(dict(base), [inv("files-check", inputs=[f])]))
